@@ -20,6 +20,7 @@ EXPLANATION = (
     "from the error's Display, keeps the connection open and yields nothing from that read. "
     "The field list is closed over the struct: any further field written on the read side must be reset too; the "
     "parsers read the buffer only through slices with an explicit upper end, so stale bytes of a rejected request are out of reach. "
+    "Under try_read the stream is read only by read_bytes' one receive and those bytes are what the parsers see, so nothing sent after a rejected request is dropped unparsed. "
     "Decides these clauses; equality with a fresh connection on all continuations follows by argument."
 )
 TRUSTED = ["Vec::clear / Option::take / mem::take reset their receiver"]
@@ -79,6 +80,10 @@ def run(ctx):
     from . import c01, c02
     ctx.guarded("R11.3", "lines", lambda: c02.lines(_Remap(ctx, "R11.3")))
     ctx.guarded("R11.3", "body", lambda: c01.body(_Remap(ctx, "R11.3")))
+    ctx.rule("R11.4", "every byte taken from the stream after a rejection reaches the parsers: under try_read the stream is touched only by the one receive of read_bytes, whose bytes land in the window the parsers are given (= C03 R03.1, C01 R01.6) -- a clean-up that reads and drops what is queued also drops the well-formed requests behind the rejected one")
+    from . import c03
+    ctx.guarded("R11.4", "stream", lambda: c03.stream(_Remap(ctx, "R11.4")))
+    ctx.guarded("R11.4", "window", lambda: c01.window(_Remap(ctx, "R11.4")))
 
 
 def initial_values(ctx):
